@@ -1,5 +1,6 @@
 import Dashu.Model.Serde.Wire
 import Dashu.Model.Text.Spec
+import Dashu.Model.Text.Float
 /-
   C19 clause (3) — dashu's `Serialize` / `Deserialize` impls on top of the two media of `Wire.lean`
   (core Lean only).  No word size occurs anywhere in this file: every encoding is a function of the
@@ -255,18 +256,11 @@ def unjsonX (s : Bytes) : Option QVal := (jsonUnquote s).bind parseX
 def zeros (k : Nat) : Bytes := List.replicate k 48
 
 /-- `Repr::fmt_round` with neither precision nor width (what `collect_str` uses): positional
-    notation in base `B`, lower-case digits; infinities print `inf` / `-inf` -/
+    notation in base `B`, lower-case digits — builder-text's model `Text.fmtRound` (C08; the rounding
+    mode is irrelevant without a precision); infinities print `inf` / `-inf` -/
 def textF (B : Nat) (v : FVal) : Bytes :=
   if v.signif = 0 ∧ v.exp ≠ 0 then (if v.exp < 0 then [45, 105, 110, 102] else [105, 110, 102])
-  else
-    let sgn : Bytes := if v.signif < 0 then [45] else []
-    let ds := printSpec B false v.signif.natAbs
-    if v.exp < 0 then
-      let k := (-v.exp).toNat
-      let int := ds.take (ds.length - k)
-      let fract := ds.drop (ds.length - k)
-      sgn ++ (if int.isEmpty then [48] else int) ++ [46] ++ zeros (k - fract.length) ++ fract
-    else sgn ++ ds ++ zeros v.exp.toNat
+  else Dashu.Model.Text.fmtRound B .zero {} none ⟨v.signif, v.exp⟩
 
 /-- leading sign as the float parser strips it: `-` or `+`, at most one -/
 def stripSign : Bytes → Bool × Bytes
@@ -274,113 +268,17 @@ def stripSign : Bytes → Bool × Bytes
   | 43 :: r => (false, r)
   | s => (false, s)
 
-def has0x : Bytes → Bool
-  | 48 :: 120 :: _ => true
-  | 48 :: 88 :: _ => true
-  | _ => false
-
-/-- index of the last byte that is one of `cs` (`str::rfind(&[…])`) -/
-def rfindAny (cs : List Nat) (s : Bytes) : Option Nat :=
-  let rec go : Bytes → Nat → Option Nat → Option Nat
-    | [], _, best => best
-    | x :: xs, i, best => go xs (i + 1) (if cs.contains x then some i else best)
-  go s 0 none
-
-def findByte (c : Nat) (s : Bytes) : Option Nat :=
-  let rec go : Bytes → Nat → Option Nat
-    | [], _ => none
-    | x :: xs, i => if x = c then some i else go xs (i + 1)
-  go s 0
-
-def countByte (c : Nat) (s : Bytes) : Nat := (s.filter (· = c)).length
-
-/-- `str::parse::<isize>()`: optional sign, at least one decimal digit, value within `isize` -/
-def parseIsize (s : Bytes) : Option Int :=
-  let (neg, body) := match s with
-    | 45 :: r => (true, r)
-    | 43 :: r => (false, r)
-    | r => (false, r)
-  if body.isEmpty then none
-  else if body.all (fun c => 48 ≤ c && c ≤ 57) then
-    let m : Nat := body.foldl (fun a c => a * 10 + (c - 48)) 0
-    let v : Int := if neg then -(m : Int) else (m : Int)
-    if inIsize v then some v else none
-  else none
-
-/-- `UBig::from_str_radix` -/
-def ubigRadix (s : Bytes) (r : Nat) : Option Nat :=
-  match parseRadixSpec false s r with
-  | .ok v => some v.toNat
+/-- `ReprVisitor::visit_str` / `FromStr`: `Repr::<B>::from_str_native` — builder-text's model
+    `Text.fromStrNativeRaw` (C08; proved independent of the word size and equal to the documented
+    literal grammar, `Text.fromStrNative_eq_spec`) followed by `Repr::new`; the normalised exponent is
+    required to be an `isize` (the code overflows instead: panic in debug builds, wrap-around in
+    release builds).  Returns the representation and the number of digits written. -/
+def parseF (B : Nat) (s : Bytes) : Option (FVal × Nat) :=
+  match Dashu.Model.Text.fromStrNativeRaw 64 B s with
+  | .ok (sig, e, nd) =>
+    let r := Dashu.Model.Float.FRepr.new B sig e
+    if inIsize r.exp then some (⟨r.signif, r.exp⟩, nd) else none
   | .error _ => none
-
-/-- `parse_unsigned` of float/src/parse.rs: a component of the literal must not carry a sign
-    (`UBig::from_str_radix` alone would accept a leading `+`) -/
-def parseUnsigned (s : Bytes) (r : Nat) : Option Nat :=
-  match s with
-  | 43 :: _ => none
-  | _ => ubigRadix s r
-
-/-- scale markers of `Repr::<B>::from_str_native` -/
-def scaleMarkers (B : Nat) (pfx : Bool) : List Nat :=
-  if B = 10 then [101, 69, 64]
-  else if B = 2 then (if pfx then [112, 80, 64] else [98, 66, 64])
-  else if B = 8 then [111, 79, 64]
-  else if B = 16 then [104, 72, 64]
-  else [64]
-
-/-- `Repr::<B>::from_str_native` up to (not including) `Repr::new`:
-    (negative?, magnitude, exponent, number of digits written).  The exponent is an unbounded
-    integer here; the range check happens in `parseF`. -/
-def parseNativeRaw (B : Nat) (src0 : Bytes) : Option (Bool × Nat × Int × Nat) := do
-  let (neg, src) := stripSign src0
-  let pfx := has0x src
-  let (scale, useP, src) ← (match rfindAny (scaleMarkers B pfx) src with
-    | some pos =>
-      match parseIsize (src.drop (pos + 1)) with
-      | none => none
-      | some v =>
-        let m := src.getD pos 0
-        some (v, B == 2 && (m == 112 || m == 80), src.take pos)
-    | none => some ((0 : Int), false, src) : Option (Int × Bool × Bytes))
-  match findByte 46 src with
-  | some dot =>
-    if src.length = 1 then none
-    else
-      let (int, intDigits, base) ← (
-        if dot ≠ 0 then
-          let intStr := src.take dot
-          if B == 2 && pfx then
-            let t := intStr.drop 2
-            let dg := 4 * (t.length - countByte 95 t)
-            if t.isEmpty then some (0, dg, 16) else (parseUnsigned t 16).map fun v => (v, dg, 16)
-          else if B == 2 && useP && !pfx then none
-          else (parseUnsigned intStr B).map fun v => (v, intStr.length - countByte 95 intStr, B)
-        else if useP then none else some (0, 0, B) : Option (Nat × Nat × Nat))
-      let fr := src.drop (dot + 1)
-      let (fract, fractDigits) ← (
-        if !fr.isEmpty then
-          let d0 := fr.length - countByte 95 fr
-          let d := if B == 2 && base == 16 then 4 * d0 else d0
-          (parseUnsigned fr base).map fun v => (v, d)
-        else some (0, 0) : Option (Nat × Nat))
-      let nd := intDigits + fractDigits
-      if nd = 0 then none            -- both parts omitted (`0x.`): NoDigits
-      else if fract = 0 then pure (neg, int, scale, nd)
-      else pure (neg, int * B ^ fractDigits + fract, scale - (fractDigits : Int), nd)
-  | none =>
-    if B == 2 && pfx then
-      let t := src.drop 2
-      (parseUnsigned t 16).map fun v => (neg, v, scale, 4 * (t.length - countByte 95 t))
-    else if B == 2 && useP && !pfx then none
-    else (parseUnsigned src B).map fun v => (neg, v, scale, src.length - countByte 95 src)
-
-/-- `ReprVisitor::visit_str`: `from_str_native`, exponent arithmetic required to stay in `isize` -/
-def parseF (B : Nat) (s : Bytes) : Option (FVal × Nat) := do
-  let (neg, m, e, nd) ← parseNativeRaw B s
-  if ¬ inIsize e then none
-  else
-    let v ← fnew B (if neg then -(m : Int) else (m : Int)) e
-    pure (v, nd)
 
 def jsonR (B : Nat) (v : FVal) : Bytes := jsonQuote (textF B v)
 def unjsonR (B : Nat) (s : Bytes) : Option FVal := ((jsonUnquote s).bind (parseF B)).map (·.1)
